@@ -199,7 +199,8 @@ class ProgGen:
             f = self.choice(cands)
             self.features.add("call-in-expr")
             f["calls"] += 1
-            return f"{f['name']}({', '.join(self.arg(vars_, d + 1) for _ in range(f['npar']))})"
+            args = self.nested_call_arg([self.arg(vars_, d + 1) for _ in range(f["npar"])], vars_)
+            return f"{f['name']}({', '.join(args)})"
         return self.atom(vars_)
 
     def arg(self, vars_, d=0):
@@ -350,10 +351,21 @@ class ProgGen:
                 out.append(pad + self.effect_stmt())
         return out
 
+    def nested_call_arg(self, args, vars_):
+        """with some probability replace a non-first argument by a call of a value-returning function that
+        takes arguments itself (the outer call's earlier arguments must survive the inner call)"""
+        cands = [g for g in self.funcs if g["has_ret"] and g["npar"] >= 1]
+        if len(args) >= 2 and cands and not self.in_pure and not self.no_calls and self.chance(30):
+            g = self.choice(cands)
+            g["calls"] += 1
+            self.features.add("call-as-later-argument")
+            args[self.n(1, len(args) - 1)] = f"{g['name']}({', '.join(self.arg(vars_, 2) for _ in range(g['npar']))})"
+        return args
+
     def call_stmt(self, vars_):
         f = self.choice(self.funcs)
         f["calls"] += 1
-        args = [self.arg(vars_) for _ in range(f["npar"])]
+        args = self.nested_call_arg([self.arg(vars_) for _ in range(f["npar"])], vars_)
         if self.cfg.d5_args and args and f.get("wglobals") and self.chance(45):
             # F-D5 shape on purpose (only for oracles that do not consult the source semantics): a global
             # that the callee itself declares `global`, passed by bare name
